@@ -19,6 +19,11 @@
 //	      (deviation-bounded): 11 factories x 3 annotated keysets x FailAt {-1,0,1,2,3}; a factory reports the error or
 //	      returns a primitive whose operations never panic and give the model's verdicts.
 //
+//	  (e) section keymanager-answers (kmanswers.go): custom key managers as collaborators whose Primitive() /
+//	      PublicKeyData() answer unusually (deviation-bounded): 9 factories x 4 keysets mixing the custom key with
+//	      regular keys x 4 prefix types x answers; error, or a primitive that never panics and obeys C05 on the
+//	      keys it can work with.
+//
 // For every keyset the wrapped primitive is built with tink's factory, its output is judged (framing
 // of the primary; accepted by exactly the single-key primitives the model names) and it is probed
 // with outputs of EVERY key of a universe (the keyset's keys and foreign keys: same id+variant but
@@ -1084,6 +1089,8 @@ func main() {
 	registerMonitoring()
 	setupJWT()
 	setupClasses()
+	registerAnswerKMs()
+	setupAnswerFactories()
 	tape.InstallMux()
 	var secs []h.Section
 	for _, c := range classes {
@@ -1105,7 +1112,9 @@ func main() {
 	secs = append(secs, h.Section{Name: "cryptofmt-output-prefix", Body: cryptofmtSection, Bound: -1})
 	// monitoring client as a faulty collaborator (monfaults.go): Serial, it swaps the process-global client
 	secs = append(secs, h.Section{Name: "monitoring-faults", Body: monitoringFaultsSection, Bound: 1, Serial: true})
+	// key managers as collaborators with unusual answers (kmanswers.go)
+	secs = append(secs, h.Section{Name: "keymanager-answers", Body: kmAnswersSection, Bound: 1})
 	h.Main("C05", "model_checking",
-		"per primitive class (AEAD, DAEAD, MAC, signature, hybrid, streaming AEAD, PRF set, JWT MAC, JWT signature; 2-3 key types each incl. legacy non-full primitives via KmsEnvelopeAeadKey / custom key managers): (a) all keysets of size 1-2 over {shapes} x {ENABLED,DISABLED,DESTROYED} x ids {0,1,0xFFFFFFFF} x material {0,1} x every primary x both orders, size 3 over a reduced alphabet; (b) BFS to fixpoint over keyset.Manager histories (<= 3 keys, thorough also <= 4 keys over a reduced Add alphabet; SetPrimary/Enable/Disable/Delete). A state is one keyset / manager state; a transition is one probe (an output of a single key of the universe, or the wrapped primitive's own output judged by a single-key primitive) whose verdict and monitoring events are compared with the selection model verif/ref/selection.go. (d) monitoring-faults: factories of the monitored classes x annotated keysets {[A*],[A*,B],[A,B*]} x the NewLogger call that fails {-1 (healthy),0,1,2,3}: error, or a primitive whose operations never panic and give the model's verdicts and events. An execution is non-trivial when a wrapped primitive was built and probed (monitoring-faults: when the factory was called).",
+		"per primitive class (AEAD, DAEAD, MAC, signature, hybrid, streaming AEAD, PRF set, JWT MAC, JWT signature; 2-3 key types each incl. legacy non-full primitives via KmsEnvelopeAeadKey / custom key managers): (a) all keysets of size 1-2 over {shapes} x {ENABLED,DISABLED,DESTROYED} x ids {0,1,0xFFFFFFFF} x material {0,1} x every primary x both orders, size 3 over a reduced alphabet; (b) BFS to fixpoint over keyset.Manager histories (<= 3 keys, thorough also <= 4 keys over a reduced Add alphabet; SetPrimary/Enable/Disable/Delete). A state is one keyset / manager state; a transition is one probe (an output of a single key of the universe, or the wrapped primitive's own output judged by a single-key primitive) whose verdict and monitoring events are compared with the selection model verif/ref/selection.go. (d) monitoring-faults: factories of the monitored classes x annotated keysets {[A*],[A*,B],[A,B*]} x the NewLogger call that fails {-1 (healthy),0,1,2,3}: error, or a primitive whose operations never panic and give the model's verdicts and events. (e) keymanager-answers: 9 factories (AEAD, DAEAD, MAC, signer, verifier, hybrid encrypt / decrypt, PRF set, streaming AEAD) x keysets {[C*],[R*,C],[C*,R],[R,C,R2*]} (C a key served by a custom key manager, R regular keys) x prefix type of C x Primitive() answer {correct, (nil,error), (nil,nil), primitive of another class, typed nil pointer} and, on handle.Public(), PublicKeyData() answer {correct, error, nil, other type URL}, at most one unusual answer: Public() / the factory report an error, or the primitive never panics, produces with the primary (an error if the primary is the unusable key) and accepts / rejects as C05 says on the usable keys. An execution is non-trivial when a wrapped primitive was built and probed (monitoring-faults: when the factory was called).",
 		secs)
 }
